@@ -255,3 +255,48 @@ def py_space_points():
     """code points matched by `\\s` of a str pattern (all of Unicode)"""
     ws = re.compile(r'\s')
     return [c for c in range(0x110000) if ws.fullmatch(chr(c))]
+
+
+# ---------------------------------------------------------------- round 6: long texts on the driver protocol (run-length form)
+def enc_rle(s):
+    """`<count>*<code point>` joined by `+` (`-` = empty): a 10 000 character text is a short line"""
+    if not s:
+        return '-'
+    out, prev, n = [], s[0], 0
+    for c in s:
+        if c == prev:
+            n += 1
+        else:
+            out.append('%d*%d' % (n, ord(prev)))
+            prev, n = c, 1
+    out.append('%d*%d' % (n, ord(prev)))
+    return '+'.join(out)
+
+
+def dec_rle(s):
+    if s == '-':
+        return ''
+    return ''.join(chr(int(c)) * int(n) for n, c in (seg.split('*') for seg in s.split('+')))
+
+
+LONG_BOUNDS = [255, 256, 1000, 1024, 2000, 2048, 4000, 4096, 8000, 8192, 10000]
+
+
+def long_values(bounds=LONG_BOUNDS):
+    """strings around every power-of-two / round-number length up to 10 000 with a quote / a backslash at and around the
+    boundary — in the value and, counting the doubling of earlier specials, in the RENDERED text (a quote at index B-1 of
+    a value without earlier quotes is the pair straddling position B of the doubled text)"""
+    out = []
+    for B in bounds:
+        out += [
+            'x' * (B - 1) + "'" + 'y' * 50,                 # the doubled quote straddles B
+            'x' * (B - 1) + "'",                            # length exactly B, quote last
+            'x' * (B - 2) + "''" + 'y' * 10,
+            'x' * (B - 1) + '\\' + 'y' * 50,                # backslash at the boundary (MySQL family doubles it)
+            'x' * B + "'" + 'y',
+            "'" + 'x' * (B - 3) + "'" + 'y' * 5,            # an earlier quote shifts the rendered position
+            'x' * (B - 1) + "\\'" + ' OR 1=1 -- ',         # backslash + quote across the boundary
+            'x' * B,
+        ]
+    out += ['x' * 3999 + "'" + 'y' * 3998 + "'" + 'z' * 100, "'" * 4000, '\\' * 4097, ("ab'" * 3400)[:10000]]
+    return list(dict.fromkeys(out))
